@@ -6,7 +6,7 @@ from lib import vf
 RULE_F = ("edge/vertex lists (0-18 vertices, 0-65 edges, hub vertices so that degrees run from 0 to well above 5, parallel "
           "edges, self loops, isolated vertices) rendered as real CSV files under the stream's data/ directory: plain / gzip "
           "with .gz / gzip WITHOUT .gz, with / without trailing newline, LF / CRLF, shuffled + extra columns in both files (extra column names drawn from plausible aliases / near-misses of the real ones - lon, lat, X, id, src, length ... - holding other numbers, in every position; extra TEXT columns first / middle / last holding CSV-special content: leading '#', ';', quoted fields with commas and quotes, spaces, empty, NaN, 3000-character fields), "
-          "padded fields, exponent notation, coordinates as k/4 or (one case in five) as 17-36 digit decimals at / just above / just below the midpoint of two adjacent f32 values, explicit (true / arbitrary) or scanned n_edges / n_vertices; some cases form a SEQUENCE of 2-3 loads in the one harness process at the SAME two paths, the files rewritten with the other compression / other rows / other sizes, each load judged on its own; loaded through "
+          "padded fields, exponent notation, coordinates as k/4 or (one case in five) as 17-36 digit decimals at / just above / just below the midpoint of two adjacent f32 values, explicit (true / arbitrary) or scanned n_edges / n_vertices; some gzip files are MULTI-MEMBER gzip (2-3 members, `cat a.gz b.gz`, rows split at line boundaries): the unchanged readers use flate2's single-member GzDecoder for BOTH the line count and the rows, so for the loader such a file IS its first member - M and S are given the rows of the first member (later rows absent: adjacency size, vertices and the missing-vertex guard must all agree on that; an edge that reaches a vertex of a later member must fail the load); some cases form a SEQUENCE of 2-3 loads in the one harness process at the SAME two paths, the files rewritten with the other compression / other rows / other sizes, each load judged on its own; loaded through "
           "Graph::from_files or DefaultGraphBuilder::build (the call CompassApp makes); every accessor printed: sizes, "
           "get_edge / get_vertex past the end, out_edges / in_edges, adj / rev through iter() (len / get asserted "
           "consistent), src / dst / incident_vertex, edge_triplet, incident_edges, incident_triplet_ids / _attributes in "
@@ -20,7 +20,7 @@ RULE_T = ("per-edge tables written as files (plain / .gz / gzip without extensio
           "and loaded through the readers the models use: read_raw_file + read_decoders::default::<Speed> (and "
           "SpeedTraversalEngine::new, asserted to hold the same table), ::<Grade>, read_decoders::u8 (road classes), "
           "sequences of loads at the same path with the other compression; from_csv::<EdgeHeading> (with header, half of the cases with an extra first text column of CSV-special content); row i of the loaded table compared with the value written on row i; "
-          "one case in eight has an undecodable line (specification: the whole load must fail, no shifted table). Non-trivial = >= 2 rows, all decodable")
+          "multi-member gzip tables (first member only, as for the graph files); one case in eight has an undecodable line (specification: the whole load must fail, no shifted table). Non-trivial = >= 2 rows, all decodable")
 
 
 RULE_B = ("LARGE files (edge / vertex files around and above 1 MiB on disk: 30k-140k rows, plain and gzip, one case whose "
@@ -123,7 +123,7 @@ def run(chk):
     quick = chk.tier == "quick"
     corpus = ["--corpus", os.path.join(vf.ROOT, "corpus", "C15")]   # witnesses, replayed first in each stream
     if _is(chk, "files"):
-        r = vf.run_stream(binp, "files", 560 if quick else 6000, chk.seed, os.path.join(chk.outdir, "files"), extra=corpus, replay=chk.replay)
+        r = vf.run_stream(binp, "files", 600 if quick else 6000, chk.seed, os.path.join(chk.outdir, "files"), extra=corpus, replay=chk.replay)
         chk.add_stream(r, RULE_F)
         vf.compare(chk, r, classify=classify, binpath=binp, extra=corpus)
     if _is(chk, "tables"):
